@@ -101,6 +101,11 @@ def main(chk):
     ]
     prog = chk.program('on')
     o1_capacity(chk, prog)
+    # "full capacity available again": a waiter that times out bans the server it waited for (pool exhaustion counts as a failed checkout); once every
+    # replica of the shard is banned that way, the next checkout lifts the bans -- also in a shard that has a primary (which is never banned)
+    import checks.c07 as c07
+    for roles, banned, target in (((0, 1), [1], 1), ((0, 1, 1), [1, 2], 2), ((1, 1), [0, 1], 0)):
+        c07.o2_try_unban(chk, prog, roles, banned, target, prop='C04')
     hobl.handle_obligations(chk, prog, {'C04'}, ['simple', 'session', 'extended', 'named', 'malformed', 'cuts', 'pause', 'status', 'plugins', 'copy', 'timeouts', 'drops', 'checkout-failures'])
 
 
